@@ -198,7 +198,10 @@ class Engine(ExprMixin, StmtMixin, CallMixin):
         if ann == "float":
             return fresh("real", name)
         if ann in ("datetime.datetime", "datetime"):
-            return fresh("dt", name)
+            d = fresh("dt", name)
+            from .values import dt_off
+            st.assume(z3.And(dt_off(d.t) > -86400, dt_off(d.t) < 86400))  # well-typed aware datetime
+            return d
         if ann == "list[str]":
             return fresh("strlist", name)
         if ann in ("Any", "T", "R", "P", "U", "object", "ResultType", "CallableType"):
